@@ -18,23 +18,92 @@ def lingoNamed : List (Str × Str) :=
    (S "EMPTY", [])]
 
 def isIdentChar (c : Char) : Bool := c.isAlphanum || c = '_'
+def isIdentStart (c : Char) : Bool := c.isAlpha || c = '_'
+
+/-- The reference reader of a Lingo literal expression  `term (" & " term)*`  as a scanner, one character at a time.
+    `T` a term is expected · `S` inside a string literal (it runs to the next `"`; there is no escape mechanism, a backslash
+    is an ordinary character) · `E p` (only used by the proofs, see `escs`) inside an escape sequence · `N acc` inside an
+    identifier · `A k` after a term, `k` characters of the separator `" & "` read · `X` not a literal expression. -/
+inductive LQ where
+  | T | S | E (p : Str) | N (acc : Str) | A (k : Nat) | X
+  deriving DecidableEq, Repr
+
+structure LM where
+  q : LQ
+  out : Str
+  deriving DecidableEq, Repr
+
+/-- escape sequences (without the backslash) that `unicode_escape` writes for the characters Lingo names -/
+def escTable : List (Str × Char) :=
+  [(['x', '0', '8'], Char.ofNat 8), (['x', '0', '3'], Char.ofNat 3), (['r'], '\r'), (['t'], '\t')]
+
+/-- one character. `escs` = escape sequences that are decoded inside string literals: `none` for Lingo itself (the reader the
+    property speaks about); `some J` is the reading of the intermediate texts of `replace_chars_with_lingo_constants`, in which
+    the sequences in `J` still stand for their characters and every other backslash is an error -/
+def lstep (escs : Option (List Str)) (m : LM) (c : Char) : LM :=
+  match m.q with
+  | .T => if c = '"' then { m with q := .S } else if isIdentStart c then { m with q := .N [c] } else { m with q := .X }
+  | .S =>
+    if c = '"' then { m with q := .A 0 }
+    else match escs with
+      | some _ => if c = '\\' then { m with q := .E [] } else { m with out := m.out ++ [c] }
+      | none => { m with out := m.out ++ [c] }
+  | .E p =>
+    match escs with
+    | some J =>
+      let p' := p ++ [c]
+      if p' ∈ J then
+        match escTable.lookup p' with
+        | some d => { q := .S, out := m.out ++ [d] }
+        | none => { m with q := .X }
+      else if J.any (fun e => p'.isPrefixOf e) then { m with q := .E p' }
+      else { m with q := .X }
+    | none => { m with q := .X }
+  | .N acc =>
+    if isIdentChar c then { m with q := .N (acc ++ [c]) }
+    else if c = ' ' then
+      match lingoNamed.lookup acc with
+      | some v => { q := .A 1, out := m.out ++ v }
+      | none => { m with q := .X }
+    else { m with q := .X }
+  | .A k =>
+    if k = 0 ∧ c = ' ' then { m with q := .A 1 }
+    else if k = 1 ∧ c = '&' then { m with q := .A 2 }
+    else if k = 2 ∧ c = ' ' then { m with q := .T }
+    else { m with q := .X }
+  | .X => m
+
+def lrun (escs : Option (List Str)) (m : LM) (s : Str) : LM := s.foldl (lstep escs) m
+
+/-- the value if the text ended where a literal expression can end -/
+def lfinal (m : LM) : Option Str :=
+  match m.q with
+  | .A 0 => some m.out
+  | .N acc => (lingoNamed.lookup acc).map (m.out ++ ·)
+  | _ => none
+
+def linit : LM := { q := .T, out := [] }
+
+/-- value of a Lingo literal expression -/
+def evalLingoLit (s : Str) : Option Str := lfinal (lrun none linit s)
+
+/-! The same reader written as a recursive descent over terms; the harness compares the two on every text it evaluates. -/
 
 /-- body of a string literal: everything up to the next `"`; returns (body, text after the closing quote) -/
 def lingoStrBody : Str → Option (Str × Str)
   | [] => none
   | c :: rest => if c = '"' then some ([], rest) else (lingoStrBody rest).map fun (b, r) => (c :: b, r)
 
-/-- a named constant at the head of the text (whole identifier) -/
+/-- a named constant at the head of the text (the whole identifier) -/
 def lingoNamedAt (s : Str) : Option (Str × Str) :=
-  lingoNamed.findSome? fun (k, v) =>
-    if k.isPrefixOf s ∧ !((s.drop k.length).head?.map isIdentChar).getD false then some (v, s.drop k.length) else none
+  let idn := s.takeWhile isIdentChar
+  if (idn.head?.map isIdentStart).getD false then (lingoNamed.lookup idn).map fun v => (v, s.drop idn.length) else none
 
 /-- one operand of `&` -/
 def lingoTerm : Str → Option (Str × Str)
   | '"' :: rest => lingoStrBody rest
   | s => lingoNamedAt s
 
-/-- `term (" & " term)*`, the whole text; `fuel` bounds the number of terms (every term is at least one character) -/
 def evalLingoAux : Nat → Str → Option Str
   | 0, _ => none
   | fuel + 1, s =>
@@ -45,8 +114,7 @@ def evalLingoAux : Nat → Str → Option Str
       else if (S " & ").isPrefixOf rest then (evalLingoAux fuel (rest.drop 3)).map (v ++ ·)
       else none
 
-/-- value of a Lingo literal expression -/
-def evalLingoLit (s : Str) : Option Str := evalLingoAux (s.length + 1) s
+def evalLingoLitRD (s : Str) : Option Str := evalLingoAux (s.length + 1) s
 
 /-! ### JavaScript -/
 
